@@ -46,9 +46,11 @@ func DurationValueWithin(d time.Duration) Value {
 			return equal, ok
 		}
 		if xd < yd {
-			return yd-xd <= d, true
+			xd, yd = yd, xd
 		}
-		return xd-yd <= d, true
+		// xd >= yd: a negative difference means it does not fit in a time.Duration (overflow), which is beyond any d
+		diff := xd - yd
+		return diff >= 0 && diff <= d, true
 	}
 }
 
